@@ -234,6 +234,33 @@ def run(ctx):
     ntpl, tpl_mism = run_gentpl()
     tpl_mism = [m for m in tpl_mism if m['id'].startswith('slisting')]
     ctx.cov['correspondence']['corr-M split-port lowering templates'] = {'templates': 25, 'mismatches': len(tpl_mism), 'exhaustive': True}
+    # corr-S (structural): under the 3E and 3E+ schemes every bank holds RAM behind two ports: a store to a `bankN`
+    # variable goes to its address + 1024 (3E) / + 512 (3E+), a load to its address; bank 0 included
+    sch_bad = []
+    nsch = 0
+    for sch, dflag, woff in (('3E', '__3E__', 1024), ('3E+', '__3E_PLUS__', 512)):
+        for bank in (0, 1, 2, 7):
+            src_ = ('bank%d char v; bank%d char t[4]; bank%d short w; char a;\n'
+                    'void main() { v = 1; a = v; t[X] = a; a = t[X]; t[1] = 3; a = t[2]; v++; w = 300; a = w >> 8; v = v + a; }\n' % (bank, bank, bank))
+            for O in ('-O0', '-O1'):
+                r_ = run_ccv(compile_job('sch', src_, args=[O, '-D', dflag], want=['funcs']))[0]
+                if r_['status'] != 'ok':
+                    continue
+                nsch += 1
+                for f_ in r_['funcs']:
+                    for l_ in f_.get('final') or []:
+                        if l_[0] != 'I' or not re.match(r'(v|t|w)\b', l_[6]):
+                            continue
+                        m_ = re.match(r'(v|t|w)(?:\+(\d+))?(,X|,Y)?$', l_[6])
+                        off_ = int(m_.group(2) or 0) if m_ else 0
+                        is_store = l_[1] in ('STA', 'STX', 'STY')
+                        if l_[1] in ('INC', 'DEC', 'ASL', 'LSR', 'ROL', 'ROR'):
+                            sch_bad.append({'why': 'read-modify-write instruction %s %s on split-port memory (%s)' % (l_[1], l_[6], sch), 'program': src_, 'level': O})
+                        elif is_store != (off_ >= woff):
+                            sch_bad.append({'why': '%s %s under %s: a %s must %suse the write port (+%d)' % (l_[1], l_[6], sch, 'store' if is_store else 'load',
+                                                                                                      '' if is_store else 'not ', woff),
+                                            'program': src_, 'level': O, 'defines': dflag})
+    ctx.cov['correspondence']['corr-S on-chip RAM ports (3E, 3E+)'] = {'compilations': nsch, 'violations': len(sch_bad)}
     findings = [f for f in ctx.findings if f.get('status') == 'open']
     n_prog = 400 if quick else 8000
     stats = {}
@@ -282,6 +309,8 @@ def run(ctx):
     ctx.cov['traces_validated_against_impl'] = stats.get('agree', 0)
     ctx.cov['correspondence']['corr-S split-port co-execution'] = stats
     ctx.sample({'program': gen_program(random.Random(ctx.seed), dict(superchip=True)).source()[:600]})
+    for v in sch_bad[:2]:
+        ctx.violation('ports', v)
     for v in viol[:3]:
         ctx.violation('ports', v)
     if mism and not viol:
